@@ -6,6 +6,7 @@ mod c09_agg;
 mod c09_map;
 mod c09_mk;
 mod c09_stm;
+mod c09_util;
 
 // ---- source inclusion of the STM signer-registration Merkle tree -------------------------------
 // `mithril-stm` keeps `membership_commitment` private, so the working-tree files are compiled into
